@@ -804,6 +804,14 @@ def matrix_contents(live, dead, me):
         ("twenty-digits", b"99999999999999999999\n", "either"),
         ("5000-digits", b"9" * 5000 + b"\n", "either"),
         ("self-no-newline", S, "either"),
+        # how old the file is says nothing about whom it names: a master may have adopted a left-over file that already held
+        # its pid, a restore may have kept time stamps, the clock may have been set - "names a live process" is what counts
+        ("live-file-a-day-older-than-the-process", L + b"\n", "live", -86400.0),
+        ("live-file-from-1970", L + b"\n", "live", "epoch"),
+        ("live-file-from-the-future", L + b"\n", "live", 86400.0),
+        ("dead-file-a-day-old", D + b"\n", "stale", -86400.0),
+        ("dead-file-from-the-future", D + b"\n", "stale", 86400.0),
+        ("garbage-file-a-day-old", b"12x\n", "garbage", -86400.0),
     ]
 
 
@@ -818,11 +826,17 @@ def run_matrix(run, ctx, uid, only=None):
         h = ctx.slot["A"]
         new = b"%d\n" % h.pid
         dead = lab.fresh_dead_pid()
-        for name, data, klass in matrix_contents(live, dead, h.pid):
+        for name, data, klass, *age in matrix_contents(live, dead, h.pid):
             if only and (name, op) != tuple(only):
                 continue
-            if klass == "stale" and name == "dead-no-newline" and not e6.pid_is_dead(dead):
+            if klass == "stale" and name.startswith("dead-") and name != "dead-pid-max" and not e6.pid_is_dead(dead):
                 continue
+
+            def aged(rel, age=age):
+                if age:
+                    t = 1.0 if age[0] == "epoch" else time.time() + age[0]
+                    os.utime(lab.path(rel), (t, t))
+                    run.count("matrix_cases_with_file_time_apart_from_now")
             lab.clean()
             P, Q = FNAME["P"], FNAME["Q"]
             h.call(op="new", fname=lab.path(P))
@@ -832,12 +846,14 @@ def run_matrix(run, ctx, uid, only=None):
             viol = []
             if op in ("create", "validate"):
                 lab.write(P, data)
+                aged(P)
                 rep = h.call(op=op)
                 got = lab.read(P)
                 tgt_before = data
             elif op == "rename":
                 h.call(op="create")
                 lab.write(Q, data)
+                aged(Q)
                 rep = h.call(op="rename", path=lab.path(Q))
                 got = lab.read(Q)
                 tgt_before = data
@@ -847,6 +863,7 @@ def run_matrix(run, ctx, uid, only=None):
             else:
                 h.call(op="create")
                 lab.write(P, data)
+                aged(P)
                 rep = h.call(op="unlink")
                 got = lab.read(P)
                 tgt_before = data
@@ -1768,7 +1785,7 @@ def main(tier, seed):
                 "create_took_over_garbage", "create_took_over_empty", "unlink_removed_own", "unlink_skipped_foreign",
                 "unlink_skipped_live", "unlink_skipped_stale", "rename_done", "rename_took_over_stale",
                 "rename_refused_live_instance", "owner_deaths", "foreign_overwrites", "matrix_cases",
-                "matrix_refused_live", "matrix_took_over", "crash_points_enumerated", "short_write_crashes",
+                "matrix_refused_live", "matrix_cases_with_file_time_apart_from_now", "matrix_took_over", "crash_points_enumerated", "short_write_crashes",
                 "crash_at_os.rename", "crash_at_os.write", "crash_outcome_previous", "crash_outcome_new",
                 "crash_outcome_absent", "crash_restricted_points",
                 "crash_followup_takeovers", "crash_followup_takeovers_of_stale_file", "crash_followup_refused_live_owner",
